@@ -4,29 +4,39 @@ package lungo
 
 import (
 	"context"
+	"fmt"
 
 	"go.mongodb.org/mongo-driver/mongo/gridfs"
+	"go.mongodb.org/mongo-driver/mongo/options"
 )
 
 // VerifOpenUploadStream is OpenUploadStreamWithID with an explicit chunk size
-// (no int32 narrowing) and an explicit upload buffer size. In production the
-// buffer always has gridfs.UploadBufferSize (16 MiB) bytes. The method exists
-// only under the build tag "verif" so that the verification harness can make
-// the buffer wrap-around of UploadStream.Write frequent with small contents.
+// and an explicit upload buffer size. In production the buffer always has
+// gridfs.UploadBufferSize (16 MiB) bytes. The method exists only under the
+// build tag "verif" so that the verification harness can make the buffer
+// wrap-around of UploadStream.Write frequent with small contents.
 //
-// With the production buffer size the stream comes from newUploadStream; with
-// another size it is built field by field (same fields as newUploadStream, no
-// metadata) to avoid allocating and zeroing 16 MiB per stream.
+// The chunk size is validated like in OpenUploadStreamWithID, with the given
+// buffer size as the bound. With the production buffer size the call is
+// delegated to OpenUploadStreamWithID (production validation and constructor);
+// with another size the stream is built field by field (same fields as
+// newUploadStream, no metadata) to avoid allocating and zeroing 16 MiB per
+// stream.
 func (b *Bucket) VerifOpenUploadStream(ctx context.Context, id interface{}, name string, chunkSize, bufSize int) (*UploadStream, error) {
+	// use the production path for the production buffer size
+	if bufSize == gridfs.UploadBufferSize && int(int32(chunkSize)) == chunkSize {
+		return b.OpenUploadStreamWithID(ctx, id, name, options.GridFSUpload().SetChunkSizeBytes(int32(chunkSize)))
+	}
+
 	// ensure indexes
 	err := b.EnsureIndexes(ctx, false)
 	if err != nil {
 		return nil, err
 	}
 
-	// use the production constructor for the production buffer size
-	if bufSize == gridfs.UploadBufferSize {
-		return newUploadStream(ctx, b, id, name, chunkSize, nil), nil
+	// check chunk size: chunks are cut from the upload buffer
+	if chunkSize <= 0 || chunkSize > bufSize {
+		return nil, fmt.Errorf("invalid chunk size: %d", chunkSize)
 	}
 
 	return &UploadStream{
